@@ -149,7 +149,7 @@ def lock_oracle(c):
                 bad.append(("locked_file_touched", "%s is locked by another process and %s it is not at its path unchanged: %r -> %r (now at: %s)"
                             % (a, "after the process was killed at call %d" % c.spec["kill"][0] if killed else "after call %d failed (%s)" % c.spec["fail"],
                                inv0[a], inv1.get(a), [p for p, e in inv1.items() if e[0] == "F" and e[1] == inv0[a][1]])))
-        if killed:
+        if killed or c.spec.get("only_locked"):
             return bad
     for cm in c.cmds:
         a = cm["a"]
@@ -345,6 +345,16 @@ def run(ctx):
                 for locked in ([], ["b/v1"]):
                     for no_lock in (False, True):
                         out.append(run_locked(env, scn, op, locked, no_lock, groups, kind="w", readonly=["b/v1"], drop_caps=True))
+        if n >= 3 and not hl:
+            # "locking is not supported" (EOPNOTSUPP = ENOTSUP) reported for an EARLIER victim only (a file system without
+            # advisory locks next to a normal one): that victim is processed without a lock (maybe_lock swallows Unsupported),
+            # the LAST victim, locked by another process, must still be left alone - every call that names the earlier victim
+            last = victims[-1]
+            c0 = run_locked(env, scn, op, [last], False, groups)
+            early = A.pct(os.path.join(scn.root, victims[0]))
+            for x in c0.calls:
+                if early in x["text"] and A.pct(os.path.join(scn.root, last)) not in x["text"] and x["ks"]:
+                    out.append(run_locked(env, scn, op, [last], False, groups, spec={"fail": (x["ks"][0], "EOPNOTSUPP"), "only_locked": True}))
         return out
 
     with ThreadPoolExecutor(max_workers=core.NCPU) as ex:
@@ -365,7 +375,8 @@ def run(ctx):
         if nl:
             ctx.bump("foreign_lock", "%s/%s/%s" % (c.extra["lock_api"], "write" if c.extra["lock_kind"] == "w" else "read", c.extra["lock_range"]))
         if c.spec:
-            ctx.bump("sweep_with_locked_victim", "kill_" + c.spec["kill"][1] if "kill" in c.spec else "fail_" + c.spec["fail"][1])
+            ctx.bump("sweep_with_locked_victim", "kill_" + c.spec["kill"][1] if "kill" in c.spec else
+                     ("lock_unsupported_for_an_earlier_victim" if c.spec.get("only_locked") else "fail_" + c.spec["fail"][1]))
         if c.extra["readonly"]:
             ctx.bump("victim_mode_0444_without_CAP_DAC_OVERRIDE", "locked" if nl else "unlocked")
 
